@@ -702,6 +702,16 @@ func (w *Worker) doTaskAttempt(
 		case RecordFlagNack:
 			err := acker.Nack(ctx, subBatch, t.ID())
 			if err != nil {
+				if _, isProcessor := t.(*ProcessorTask); isProcessor && !cerrors.IsFatalError(err) {
+					// A processor error the DLQ does not absorb is terminal,
+					// exactly as in the default engine (stream.ProcessorNode
+					// returns a fatal error when the nack fails): restarting
+					// would only feed the same record to the same processor
+					// again. Without the tag a DLQ with nack threshold 0
+					// handed the plain processor error back and the pipeline
+					// was restarted with back-off instead of being degraded.
+					return cerrors.FatalError(err)
+				}
 				return err
 			}
 		case RecordFlagRetry:
